@@ -227,15 +227,37 @@ pub fn random_expr(rng: &mut Rng, alphabet: &Alphabet, max_depth: usize) -> Expr
 }
 
 /// A random "interesting" double: small integers, simple fractions, special values, and uniform reals.
+///
+/// Never `-0.0` and never NaN: quil-rs hash-conses expression children under an equality that identifies
+/// `+0.0` with `-0.0` and all NaNs, so two live leaves that differ only in that way get merged (known
+/// finding C13/interning-merges-signed-zero).  Streams that want such leaves use `random_f64_signed_zero`
+/// and tag themselves.
 pub fn random_f64(rng: &mut Rng) -> f64 {
-    const SPECIAL: [f64; 14] = [
-        0.0, -0.0, 1.0, -1.0, 2.0, 0.5, -0.5, 3.0, 1e-11, 1e10, std::f64::consts::PI, std::f64::consts::FRAC_PI_2, 1e-300,
-        -7.25,
+    const SPECIAL: [f64; 13] = [
+        0.0, 1.0, -1.0, 2.0, 0.5, -0.5, 3.0, 1e-11, 1e10, std::f64::consts::PI, std::f64::consts::FRAC_PI_2, 1e-300, -7.25,
     ];
-    match rng.below(4) {
+    let x = match rng.below(4) {
         0 => *rng.pick(&SPECIAL),
         1 => rng.range(-9, 9) as f64,
         2 => (rng.unit() - 0.5) * 6.0,
         _ => (rng.unit() - 0.5) * 200.0,
+    };
+    if x == 0.0 {
+        0.0
+    } else {
+        x
+    }
+}
+
+/// Like `random_f64` but half of the time a zero of random sign (see `random_f64`).
+pub fn random_f64_signed_zero(rng: &mut Rng) -> f64 {
+    if rng.chance(1, 2) {
+        if rng.chance(1, 2) {
+            0.0
+        } else {
+            -0.0
+        }
+    } else {
+        random_f64(rng)
     }
 }
